@@ -193,10 +193,19 @@ def classes(ctx, cfg, fs):
     ctx.ob('K.classes', 'can_catch:NonStrictPos', t.get('NonStrictPos') is True, 'can_catch(NonStrictPos) = %s (catchable: the word belongs to a later consumer)' % t.get('NonStrictPos'), where=cc.where(), cfg=cfg)
 
 def helpflag(ctx, cfg, fs):
-    for nm in ('mk_help_parser', 'mk_version_parser'):
-        b = ctx.look(fs.one(r'^info::Info::%s$' % nm))
-        rq = [c for c in b.calls() if c.is_(r'NamedArg::req_flag')]
-        ctx.ob('H.help', '%s:req_flag' % nm, len(rq) == 1, 'Info::%s builds its parser with NamedArg::req_flag (%d call)' % (nm, len(rq)), where=b.where(), cfg=cfg)
+    ev = ctx.look(fs.one(r'^<info::Info as Parser<info::ExtraParams>>::eval$'))
+    sites = info_parser_sites(ev)
+    for nm, kind in (('mk_help_parser', 'help'), ('mk_version_parser', 'version')):
+        hs = fs.find(r'^info::Info::%s$' % nm, required=False)
+        if hs:
+            b = ctx.look(hs[0])
+            rq = [c for c in b.calls() if c.is_(r'NamedArg::req_flag')]
+            ok = len(rq) == 1 and bool(sites[kind]); n = len(rq)
+        else:
+            # the helper was written out at its callers: every construction found there is a req_flag on the right name
+            b = ev
+            ok = bool(sites[kind]) and all(c.is_(r'NamedArg::req_flag') for c in sites[kind]); n = len(sites[kind])
+        ctx.ob('H.help', '%s:req_flag' % nm, ok, 'the %s parser of Info is built with NamedArg::req_flag (%d call) and evaluated by Info::eval' % (kind, n), where=b.where(), cfg=cfg)
     b = ctx.look(fs.one(r'^<params::ParseFlag<T> as Parser<T>>::eval$'))
     tf = [c for c in b.calls() if c.is_(r'take_flag$')]
     others = [c.name for c in b.calls() if c.is_(r'State.*take_(arg|cmd|positional_word)$', r'items_iter$')]
